@@ -205,6 +205,15 @@ def build_phase(node, ctx, htf, diag_enum, diagnoses_lib, plugs=None):
         raise RuntimeError('run_if failure')
       return v
     kw['run_if'] = run_if
+  if node.get('mon') and not node.get('plugs'):
+    # the phase function wrapped by monitors.monitors (a monitor thread samples a value while the body runs): the
+    # wrapper must hand the body's return value through
+    from openhtf.core import monitors
+
+    def monitor_fn(test):
+      return 1
+    monitor_fn.__name__ = 'monitor_p%d' % pid
+    body = monitors.monitors('mon_p%d' % pid, monitor_fn, poll_interval_ms=5)(body)
   phase = htf.PhaseOptions(**kw)(body)
   ms = []
   for i, kind in enumerate(kinds):
@@ -721,7 +730,23 @@ class Gen(object):
       c['start'] = self.phase(False)
     if r.random() < 0.2:
       c['tdiags'] = [self.diagrun() for _ in range(r.choice([1, 2]))]
+    if c['allow']:
+      # (only where an unset measurement is allowed: whether the monitor has sampled before a very short body ends is
+      # not determined)
+      mark_monitored(c['nodes'], r)
     return c
+
+
+def mark_monitored(nodes, r, prob=0.3):
+  for n in nodes:
+    if n['t'] == 'P':
+      if not n.get('plugs') and not any(inv.get('raw') == 'timeout' for inv in n.get('beh') or []) and r.random() < prob:
+        n['mon'] = True
+    elif n['t'] == 'G':
+      for part in ('s', 'm', 'td'):
+        mark_monitored(n[part], r, prob)
+    elif n.get('ns'):
+      mark_monitored(n['ns'], r, prob)
 
 
 
